@@ -2,7 +2,7 @@
    Statements over the interleaving model (Model/RelaySys.v): every schedule, any number of
    session / deny / allow / websocket-admission / disconnect threads over any bookings, plus the
    crossbar's deny loop. Each is closed by [exact] of a lemma of Proofs/RelaySys_proofs.v. *)
-From Relay Require Import Base.Prelude Model.RelaySys Proofs.RelaySys_proofs.
+From Relay Require Import Base.Prelude Model.RelaySys Proofs.RelaySys_proofs Proofs.RelaySys_global.
 
 (* whatever the interleaving: once everything has run to completion (every handler finished, every
    deny notification processed), a booking on the deny list has no live connection *)
@@ -78,6 +78,48 @@ Theorem C07_loop_closes_only_its_booking :
     q s = b :: r -> denyloop s = Some s' -> memn k (closed s') = true -> memn k (closed s) = false -> In (k, b) (chm s).
 Proof. exact loop_closes_only_its_booking. Qed.
 Print Assumptions C07_loop_closes_only_its_booking.
+
+(* "... and other bookings are unaffected", over whole executions (provenance): whatever the schedule and the pool
+   of requests, a booking is on the deny list only if some deny request of the pool names it; the relay closes a
+   connection's deny channel only if that connection exchanged a code of a booking that some deny request of the
+   pool names; and a session request for a booking that no deny request names always passes its deny check *)
+Theorem C07_denied_only_if_requested :
+  forall ts cs n sched b,
+    Forall initial_thread ts ->
+    memN b (deny (run sched (init ts cs n))) = true ->
+    exists j e, nth_error ts j = Some (TDeny b e 0).
+Proof. exact denied_only_if_requested. Qed.
+Print Assumptions C07_denied_only_if_requested.
+
+Theorem C07_closed_only_if_denied :
+  forall ts cs n sched k,
+    Forall initial_thread ts ->
+    memn k (closed (run sched (init ts cs n))) = true ->
+    exists c pc b j e, thr (run sched (init ts cs n)) k = Some (TWs c pc (Some b)) /\ nth_error ts j = Some (TDeny b e 0).
+Proof. exact closed_only_if_denied. Qed.
+Print Assumptions C07_closed_only_if_denied.
+
+Theorem C07_undenied_booking_is_served :
+  forall ts cs n sched b i st,
+    Forall initial_thread ts ->
+    (forall j e, nth_error ts j <> Some (TDeny b e 0)) ->
+    thr (run sched (init ts cs n)) i = Some (TSession b 0 st) ->
+    tstep (run sched (init ts cs n)) i =
+      Some (with_threads (op_track (run sched (init ts cs n)) b) (upd (threads (run sched (init ts cs n))) i (TSession b 1 0))).
+Proof. exact undenied_booking_is_served. Qed.
+Print Assumptions C07_undenied_booking_is_served.
+
+(* non-vacuity: booking 1 is denied and its connection closed while a connection of booking 2 (code 8) joins and
+   stays, and a session request for booking 2 is still at its deny check with booking 1 on the deny list *)
+Example C07_provenance_witness :
+  let ts := [TWs 7 0 None; TDeny 1 900 0; TWs 8 0 None; TSession 2 0 0] in
+  let s := run [T 0; T 0; T 2; T 2; T 1; T 1; T 1; T 0; T 2; L] (init ts [(7, 1); (8, 2)]%N 50) in
+  Forall initial_thread ts /\ closed s = [0] /\ memN 1 (deny s) = true /\ memN 2 (deny s) = false /\
+  live s 2 2 = true /\ thr s 3 = Some (TSession 2 0 0) /\ (forall j e, nth_error ts j <> Some (TDeny 2 e 0)).
+Proof.
+  cbv zeta. split; [repeat constructor|]. vm_compute. repeat split.
+  intros [|[|[|[|[|j]]]]] e H; cbn in H; discriminate.
+Qed.
 
 (* non-vacuity: a racing schedule that ends quiescent with booking 1 denied, a connection that had
    joined and a deny that closed it *)
